@@ -58,10 +58,19 @@ def St.item (st : St) (t : String) : Option Item :=
   if t == "new" then some .new else if t == "none" then some .none
   else ((st.ref t).filter st.w.real).map .strm
 
+/-- `S:<ref>` (a single stream or placeholder object) / `S:new` (a single string ID) -/
+def St.singleItem (st : St) (t : String) : Option Item :=
+  if t == "new" then some .new else (st.ref t).map .strm
+
 def St.portsArg (st : St) (t : String) : Option PortsArg :=
   if t == "M" then some .missing else if t == "F" then some .fresh
   else if t.startsWith "L:" then ((splitComma (t.drop 2).toString).mapM st.item).map .given
+  else if t.startsWith "S:" then (st.singleItem (t.drop 2).toString).map .single
   else none
+
+/-- an index token: `n` ↦ `inl n`, `-j` ↦ `inr j` -/
+def parseIdx (t : String) : Option (Sum Nat Nat) :=
+  if t.startsWith "-" then (t.drop 1).toString.toNat?.map Sum.inr else t.toNat?.map Sum.inl
 
 /-- register the objects that became visible with the last op: real streams created
 (ids in `[old nS, new nS)` that are real) and placeholder objects not seen before, in the
@@ -112,7 +121,18 @@ def parseOp (st : St) (line : String) : Option Op :=
     some (.newUnit (← ni.toNat?) (fi == "1") (← st.portsArg ai) (← no.toNat?) (fo == "1") (← st.portsArg ao))
   | ["stream"] => some .newStream
   | ["set", k, u, i, s] => do
-    some (.set (← parseWhich k) (← u.toNat?) (← i.toNat?) (← st.optRef s))
+    match ← parseIdx i with
+    | .inl i => some (.set (← parseWhich k) (← u.toNat?) i (← st.optRef s))
+    | .inr j => some (.setBack (← parseWhich k) (← u.toNat?) j (← st.optRef s))
+  -- `InletPort(unit, i).set_stream(s)` / `OutletPort(unit, i).set_stream(s)`
+  | ["portset", k, u, i, s] => do
+    some (.set (← parseWhich k) (← u.toNat?) (← i.toNat?) (some (← st.ref s)))
+  | ["portfrom", k, x, s] => do some (.portFrom (← parseWhich k) (← st.ref x) (← st.ref s))
+  | ["sports", k, xs, ss] => do
+    some (.streamPorts (← parseWhich k) (← st.refs (if xs == "[]" then "" else xs))
+      (← st.refs (if ss == "[]" then "" else ss)))
+  | ["own", u, v] => do
+    some (.setOwner (← u.toNat?) (← (if v == "-" then some none else v.toNat?.map some)))
   | ["slice", k, u, a, b, items] => do
     some (.slice (← parseWhich k) (← u.toNat?) (← a.toNat?) (← b.toNat?)
       (← st.optRefs (if items == "[]" then "" else items)))
@@ -125,7 +145,10 @@ def parseOp (st : St) (line : String) : Option Op :=
     some (.extend (← parseWhich k) (← u.toNat?) (← st.refs (if ss == "[]" then "" else ss)))
   | ["rep", k, u, s, t] => do
     some (.replace (← parseWhich k) (← u.toNat?) (← st.ref s) (← st.optRef t))
-  | ["pop", k, u, i] => do some (.pop (← parseWhich k) (← u.toNat?) (← i.toNat?))
+  | ["pop", k, u, i] => do
+    match ← parseIdx i with
+    | .inl i => some (.pop (← parseWhich k) (← u.toNat?) i)
+    | .inr j => some (.popBack (← parseWhich k) (← u.toNat?) j)
   | ["rem", k, u, s] => do some (.remove (← parseWhich k) (← u.toNat?) (← st.ref s))
   | ["clr", k, u] => do some (.clear (← parseWhich k) (← u.toNat?))
   | ["emp", k, u] => do some (.empty (← parseWhich k) (← u.toNat?))
@@ -154,27 +177,45 @@ def parseOp (st : St) (line : String) : Option Op :=
   | ["pipe_u_u", u, v] => do some (.pipeUU (← u.toNat?) (← v.toNat?))
   | ["pipe_ss_u", ss, u] => do some (.sliceAll .i (← u.toNat?) (← st.optRefs ss))
   | ["pipe_u_ss", u, ss] => do some (.sliceAll .o (← u.toNat?) (← st.optRefs ss))
+  -- the same with a list instead of a tuple
+  | ["pipe_ls_u", ss, u] => do some (.sliceAll .i (← u.toNat?) (← st.optRefs ss))
+  | ["pipe_u_ls", u, ss] => do some (.sliceAll .o (← u.toNat?) (← st.optRefs ss))
+  -- `stream - unit`: `unit.ins[:] = (stream,)`;  `unit - stream`: `unit.outs[:] = (stream,)`
+  | ["pipe_s_u", s, u] => do some (.sliceAll .i (← u.toNat?) [some (← st.ref s)])
+  | ["pipe_u_s", u, s] => do some (.sliceAll .o (← u.toNat?) [some (← st.ref s)])
   | _ => none
 
 /-- `stream - i - unit` / `unit ** i ** stream` with a placeholder object: the placeholder
 class has no pipe operators (TypeError) -/
-def pipeOfPlaceholder (st : St) (line : String) : Bool :=
+def pipeOfPlaceholder (st : St) (line : String) : Option String :=
+  let ph (s : String) : Bool := (st.ref s).any (fun x => !st.w.real x)
   match splitWs line with
-  | ["pipe_s_i_u", s, _, _] => (st.ref s).any (fun x => !st.w.real x)
-  | ["pipe_u_i_s", _, _, s] => (st.ref s).any (fun x => !st.w.real x)
-  | _ => false
+  | ["pipe_s_i_u", s, _, _] => if ph s then some "TypeError" else none
+  | ["pipe_u_i_s", _, _, s] => if ph s then some "TypeError" else none
+  -- `placeholder - unit` ends in `unit.__rsub__`: "cannot pipe" (ValueError);
+  -- `unit - placeholder` ends in `placeholder.__rsub__`, which does not exist (AttributeError)
+  | ["pipe_s_u", s, _] => if ph s then some "ValueError" else none
+  | ["pipe_u_s", _, s] => if ph s then some "TypeError" else none
+  | _ => none
 
 def step (st : St) (line : String) : St × String :=
   if st.dead then (st, "dead") else
   match (parseOp st line).filter (fun op => op.units.all (· < st.w.nU)) with
   | none => bad st
   | some op =>
-    if pipeOfPlaceholder st line then ({ st with dead := true }, "err=TypeError") else
+    match pipeOfPlaceholder st line with
+    | some e => ({ st with dead := true }, s!"err={e}")
+    | none =>
     match op with
     | .pop k u i =>
       let ret := match ((st.w.side k).lst u)[i]? with
         | some s => s!"ret={st.nameOf s} " | none => ""
       st.run (.pop k u i) ret
+    | .popBack k u j =>
+      let l := (st.w.side k).lst u
+      let ret := match (if 0 < j ∧ j ≤ l.length then l[l.length - j]? else none) with
+        | some s => s!"ret={st.nameOf s} " | none => ""
+      st.run (.popBack k u j) ret
     | op => st.run op
 
 def main : IO Unit := Driver.loop ({} : St) step
